@@ -1270,6 +1270,30 @@ theorem configure_parameters_zShape (rd : String → Option Num) (c : Cfg) (star
       σc.self_height = canonH (keepHeight c) c h :=
   Py.W5Y.configure_parameters_zShape rd c start end_ h hrd
 
+/-- the defaults of the signatures of the nineteen constructors (regenerated with the code): the empty name, NaN for
+    every parameter, height 1 – the object the factory builds, which the model's `configure cls []` describes -/
+theorem shape_defaults :
+    (Gen.Code.Arc_init.dflt_name, Gen.Code.Arc_init.dflt_start, Gen.Code.Arc_init.dflt_end_, Gen.Code.Arc_init.dflt_height) = ("", .nan, .nan, .fin 1) ∧
+    (Gen.Code.Bell_init.dflt_name, Gen.Code.Bell_init.dflt_center, Gen.Code.Bell_init.dflt_width, Gen.Code.Bell_init.dflt_slope, Gen.Code.Bell_init.dflt_height) = ("", .nan, .nan, .nan, .fin 1) ∧
+    (Gen.Code.Binary_init.dflt_name, Gen.Code.Binary_init.dflt_start, Gen.Code.Binary_init.dflt_direction, Gen.Code.Binary_init.dflt_height) = ("", .nan, .nan, .fin 1) ∧
+    (Gen.Code.Concave_init.dflt_name, Gen.Code.Concave_init.dflt_inflection, Gen.Code.Concave_init.dflt_end_, Gen.Code.Concave_init.dflt_height) = ("", .nan, .nan, .fin 1) ∧
+    (Gen.Code.Cosine_init.dflt_name, Gen.Code.Cosine_init.dflt_center, Gen.Code.Cosine_init.dflt_width, Gen.Code.Cosine_init.dflt_height) = ("", .nan, .nan, .fin 1) ∧
+    (Gen.Code.Gaussian_init.dflt_name, Gen.Code.Gaussian_init.dflt_mean, Gen.Code.Gaussian_init.dflt_standard_deviation, Gen.Code.Gaussian_init.dflt_height) = ("", .nan, .nan, .fin 1) ∧
+    (Gen.Code.GaussianProduct_init.dflt_name, Gen.Code.GaussianProduct_init.dflt_mean_a, Gen.Code.GaussianProduct_init.dflt_standard_deviation_a, Gen.Code.GaussianProduct_init.dflt_mean_b, Gen.Code.GaussianProduct_init.dflt_standard_deviation_b, Gen.Code.GaussianProduct_init.dflt_height) = ("", .nan, .nan, .nan, .nan, .fin 1) ∧
+    (Gen.Code.PiShape_init.dflt_name, Gen.Code.PiShape_init.dflt_bottom_left, Gen.Code.PiShape_init.dflt_top_left, Gen.Code.PiShape_init.dflt_top_right, Gen.Code.PiShape_init.dflt_bottom_right, Gen.Code.PiShape_init.dflt_height) = ("", .nan, .nan, .nan, .nan, .fin 1) ∧
+    (Gen.Code.Ramp_init.dflt_name, Gen.Code.Ramp_init.dflt_start, Gen.Code.Ramp_init.dflt_end_, Gen.Code.Ramp_init.dflt_height) = ("", .nan, .nan, .fin 1) ∧
+    (Gen.Code.Rectangle_init.dflt_name, Gen.Code.Rectangle_init.dflt_start, Gen.Code.Rectangle_init.dflt_end_, Gen.Code.Rectangle_init.dflt_height) = ("", .nan, .nan, .fin 1) ∧
+    (Gen.Code.SemiEllipse_init.dflt_name, Gen.Code.SemiEllipse_init.dflt_start, Gen.Code.SemiEllipse_init.dflt_end_, Gen.Code.SemiEllipse_init.dflt_height) = ("", .nan, .nan, .fin 1) ∧
+    (Gen.Code.Sigmoid_init.dflt_name, Gen.Code.Sigmoid_init.dflt_inflection, Gen.Code.Sigmoid_init.dflt_slope, Gen.Code.Sigmoid_init.dflt_height) = ("", .nan, .nan, .fin 1) ∧
+    (Gen.Code.SigmoidDifference_init.dflt_name, Gen.Code.SigmoidDifference_init.dflt_left, Gen.Code.SigmoidDifference_init.dflt_rising, Gen.Code.SigmoidDifference_init.dflt_falling, Gen.Code.SigmoidDifference_init.dflt_right, Gen.Code.SigmoidDifference_init.dflt_height) = ("", .nan, .nan, .nan, .nan, .fin 1) ∧
+    (Gen.Code.SigmoidProduct_init.dflt_name, Gen.Code.SigmoidProduct_init.dflt_left, Gen.Code.SigmoidProduct_init.dflt_rising, Gen.Code.SigmoidProduct_init.dflt_falling, Gen.Code.SigmoidProduct_init.dflt_right, Gen.Code.SigmoidProduct_init.dflt_height) = ("", .nan, .nan, .nan, .nan, .fin 1) ∧
+    (Gen.Code.Spike_init.dflt_name, Gen.Code.Spike_init.dflt_center, Gen.Code.Spike_init.dflt_width, Gen.Code.Spike_init.dflt_height) = ("", .nan, .nan, .fin 1) ∧
+    (Gen.Code.SShape_init.dflt_name, Gen.Code.SShape_init.dflt_start, Gen.Code.SShape_init.dflt_end_, Gen.Code.SShape_init.dflt_height) = ("", .nan, .nan, .fin 1) ∧
+    (Gen.Code.Trapezoid_init.dflt_name, Gen.Code.Trapezoid_init.dflt_bottom_left, Gen.Code.Trapezoid_init.dflt_top_left, Gen.Code.Trapezoid_init.dflt_top_right, Gen.Code.Trapezoid_init.dflt_bottom_right, Gen.Code.Trapezoid_init.dflt_height) = ("", .nan, .nan, .nan, .nan, .fin 1) ∧
+    (Gen.Code.Triangle_init.dflt_name, Gen.Code.Triangle_init.dflt_left, Gen.Code.Triangle_init.dflt_top, Gen.Code.Triangle_init.dflt_right, Gen.Code.Triangle_init.dflt_height) = ("", .nan, .nan, .nan, .fin 1) ∧
+    (Gen.Code.ZShape_init.dflt_name, Gen.Code.ZShape_init.dflt_start, Gen.Code.ZShape_init.dflt_end_, Gen.Code.ZShape_init.dflt_height) = ("", .nan, .nan, .fin 1) :=
+  Py.W5Y.shape_defaults
+
 /-! ## Tie A: the activation methods – `__init__`, `parameters`, `configure` and the round trip
 
 `First`, `Last`, `Highest`, `Lowest`, `Threshold` (`Gen/CodeWave5YAct.lean`).  `configure("")` leaves the object as it is;
@@ -1423,6 +1447,25 @@ theorem comparator_symbols_are_words :
     symbols = ["<", "<=", "==", "!=", ">=", ">"] ∧ ∀ s ∈ symbols, intTokOf s = .w s :=
   Py.W5Y.comparator_symbols_are_words 
 
+/-- `Threshold.Comparator(text)`: the member whose value is the text – exactly for the six symbols of
+    `Spec.Activation.Comparator.ofSymbol`, whose operators `C08.code_comparator` ties; `ValueError` for any other text -/
+theorem comparatorOfText_spec (s : String) :
+    match Spec.Activation.Comparator.ofSymbol s with
+    | some _ => comparatorOfText s = .ok s
+    | none => comparatorOfText s = .error .value :=
+  Py.W5Y.comparatorOfText_spec s
+
 end activationTie
+
+/-! ### the hypotheses of the round trips are satisfiable: with the readers of the driver's text layer (`parseNum`,
+`parseInt`, `Py.split`) the printed parameters are read back as the tokens that were printed -/
+example : Py.W5Y.ReadsBack parseNum ⟨3, 1 / 10000⟩ (.shape [.fin 1, .fin (5 / 2)] (some (.fin (1 / 2)))) := by
+  unfold Py.W5Y.ReadsBack; decide +kernel
+example : Py.W5Y.ReadsBack parseNum ⟨3, 1 / 10000⟩ (.shape [.ninf, .fin (-5 / 2), .nan] (some one)) := by
+  unfold Py.W5Y.ReadsBack; decide +kernel
+example : Py.W5Y.ReadsBackActiv parseInt parseNum ⟨3, 1 / 10000⟩ (.nth "First" 3 (.fin (1 / 4))) := by
+  unfold Py.W5Y.ReadsBackActiv; decide +kernel
+example : Py.W5Y.ReadsBackThreshold parseNum ⟨3, 1 / 10000⟩ (.threshold "Threshold" ">=" (.fin (1 / 4))) := by
+  unfold Py.W5Y.ReadsBackThreshold; decide +kernel
 
 end C14
